@@ -430,7 +430,7 @@ class Fetcher:
 
     def expand_templates_from_revid(self, revid):
         res = self.api.do_request(
-            action="query", prop="revisions", rvprop="content", revids=str(revid)
+            action="query", prop="revisions|info", rvprop="content", revids=str(revid)
         )
         page = list(res["pages"].values())[0]
 
@@ -446,7 +446,9 @@ class Fetcher:
         if txt:
             redirect = self.nshandler.redirect_matcher(txt)
             if redirect:
-                self.redirects[title] = redirect
+                # an old revision that was a redirect says nothing about the page's title today
+                if page.get("lastrevid") == revid:
+                    self.redirects[title] = redirect
                 self._refcall(self.expand_templates_from_title, redirect)
                 self._refcall(self.fetch_used, "titles", [redirect], True)
 
